@@ -27,14 +27,14 @@ REQUIRED_CALLS = ["MeasureLayer.forward", "Circuit.take", "StabilizerState.posts
 def shards(tier):
     q = tier == "quick"
     out = [
-        {"name": "ml.np.interp", "mode": "interp", "backend": "np", "fn": "layers", "stride": 96 if q else 6},
+        {"name": "ml.np.interp", "mode": "interp", "backend": "np", "fn": "layers", "stride": 96 if q else 24},
         {"name": "ml.np.jit", "mode": "jit", "backend": "np", "fn": "layers", "stride": 24 if q else 1},
-        {"name": "ps.np.interp", "mode": "interp", "backend": "np", "fn": "postsel", "stride": 96 if q else 6, "n": 100 if q else 3000},
+        {"name": "ps.np.interp", "mode": "interp", "backend": "np", "fn": "postsel", "stride": 96 if q else 24, "n": 100 if q else 3000},
         {"name": "ps.np.jit", "mode": "jit", "backend": "np", "fn": "postsel", "stride": 12 if q else 1, "n": 400 if q else 30000},
         {"name": "circ.np.interp", "mode": "interp", "backend": "np", "fn": "circuits", "n": 80 if q else 2500},
     ]
     for k in range(3 if q else 8):
-        out.append({"name": "circ.np.jit.%d" % k, "mode": "jit", "backend": "np", "fn": "circuits", "n": 150 if q else 8000})
+        out.append({"name": "circ.np.jit.%d" % k, "mode": "jit", "backend": "np", "fn": "circuits", "n": 150 if q else 4000})
     out.append({"name": "big.np.jit", "mode": "jit", "backend": "np", "fn": "circuits", "n": 6 if q else 150, "Ns": [33, 64, 65, 66, 70, 130]})
     out.append({"name": "forms.np.jit", "mode": "jit", "backend": "np", "fn": "circuits", "n": 40 if q else 1500, "forms": 1})
     return out
